@@ -68,6 +68,9 @@ func init() {
 			add(ShutdownParams{Case: "rebalance", Checkpoint: "auto", Membership: "static"}, 4)
 			add(ShutdownParams{Case: "rebalance", Checkpoint: "auto", Mitigation: true, Membership: "dynamic"}, 4)
 			add(ShutdownParams{Case: "absorbed", Checkpoint: "auto", Membership: "static", MaxPoint: 2}, 1)
+			add(ShutdownParams{Case: "earlyclose", Checkpoint: "auto", Membership: "couchbase", MaxPoint: 4}, 1)
+			add(ShutdownParams{Case: "earlyclose", Checkpoint: "auto", Mitigation: true, Health: true, Membership: "static", MaxPoint: 4}, 1)
+			add(ShutdownParams{Case: "slowmitigationstart", Checkpoint: "auto", Mitigation: true, Membership: "static", MaxPoint: 8}, 1)
 			add(ShutdownParams{Case: "slowfailsave", Checkpoint: "auto", Membership: "static", MaxPoint: 6}, 1)
 			add(ShutdownParams{Case: "afterrebalance", Checkpoint: "auto", Membership: "static", MaxPoint: 1}, 1)
 			add(ShutdownParams{Case: "afterrebalance", Checkpoint: "auto", Membership: "static", MaxPoint: 1, OldServer: true}, 1)
@@ -221,6 +224,16 @@ func shutdownMain(p ShutdownParams) {
 		c.SetPersist(0, 0, gocbcore.SimPersist{VbUUID: c.Vb[0].Failover[0].VbUUID, Persist: 2, Current: 2})
 		c.SetPersist(1, 0, gocbcore.SimPersist{VbUUID: c.Vb[1].Failover[0].VbUUID, Persist: 1, Current: 1})
 	}
+	if p.Case == "slowmitigationstart" {
+		// the fail-over-log queries rollback mitigation issues when a session starts are answered after 5 s: its
+		// poll loop has not started yet when Close() arrives
+		c.Fault = func(r *gocbcore.SimRequest) gocbcore.SimAnswer {
+			if r.Kind == "failoverlog" {
+				return gocbcore.SimAnswer{Kind: "latedelay", Delay: 5 * time.Second}
+			}
+			return gocbcore.SimAnswer{}
+		}
+	}
 	e := NewDcpEnv(c, o)
 	if e.Err != nil {
 		vrt.Failf("newDcp: %v", e.Err)
@@ -245,14 +258,18 @@ func shutdownMain(p ShutdownParams) {
 		vrt.Logf("REBALANCE-DELAY %d", int64(o.RebalanceDelay))
 	}
 	e.Start()
-	vrt.Quiesce()
-	c.WaitIdle()
-	vrt.Quiesce()
-	if len(e.Cons.Events) != 3 {
+	early := p.Case == "slowmitigationstart" || p.Case == "earlyclose"
+	if !early {
+		vrt.Quiesce()
+		c.WaitIdle()
+		vrt.Quiesce()
+	}
+	if len(e.Cons.Events) != 3 && !early {
 		vrt.Failf("harness: %d events delivered before the scenario", len(e.Cons.Events))
 		return
 	}
 	settledAtCall := map[uint16]uint64{}
+	mitigationLoading := false
 	closeCalled := false
 	inflightSave := false
 	var closeCallTime int64
@@ -276,6 +293,11 @@ func shutdownMain(p ShutdownParams) {
 				}
 			}
 			e.LateSaveAfterInflight = done
+		}
+		for _, r := range c.RequestsOf("failoverlog") {
+			if r.Finished == 0 {
+				mitigationLoading = true
+			}
 		}
 		vrt.Logf("Close() time t=%d", vrt.NowNanos())
 		vrt.Logf("Close() called")
@@ -389,6 +411,16 @@ func shutdownMain(p ShutdownParams) {
 		vrt.Sleep(time.Duration(k) * 2 * time.Second) // Close() at different phases of the checkpoint interval
 		doClose()
 		settledAtCall = map[uint16]uint64{} // the store rejects everything: nothing can be demanded of it
+	case "earlyclose":
+		// Close() k seconds after the client signalled readiness: inside the start-up delays of the periodic loops
+		// (membership monitor: the rebalance delay; rollback mitigation; the first health check)
+		vrt.Sleep(time.Duration(k) * time.Second)
+		doClose()
+		settledAtCall = map[uint16]uint64{}
+	case "slowmitigationstart":
+		vrt.Sleep(time.Duration(k) * time.Second) // before / while / after the fail-over logs arrive
+		doClose()
+		settledAtCall = map[uint16]uint64{}
 	case "afterrebalance":
 		// a complete rebalance (close, delay, re-open), then the shutdown
 		dcpStream(e).Rebalance()
@@ -515,11 +547,22 @@ func shutdownMain(p ShutdownParams) {
 	if len(e.Cons.Events) != nEv {
 		vrt.Failf("%s: %d events delivered after Close() returned", desc, len(e.Cons.Events)-nEv)
 	}
-	// the library's periodic loops have ended (two minutes after Close() returned none of their threads is left)
-	for _, th := range vrt.LiveThreads() {
-		for _, loop := range []string{"checkpoint).StartSchedule", "healthCheck).", "rollbackMitigation)."} {
-			if strings.Contains(th, loop) {
-				vrt.Failf("%s: background activity after Close() returned: the thread %s is still alive", desc, th)
+	// the library's periodic loops have ended: a thread of theirs that still exists two minutes after Close()
+	// returned makes no further step during another two minutes (a thread that is blocked for good is a leak,
+	// not activity)
+	{
+		before := vrt.ThreadPoints()
+		vrt.Sleep(2 * time.Minute)
+		vrt.Quiesce()
+		for th, n := range vrt.ThreadPoints() {
+			for _, loop := range []string{"checkpoint).StartSchedule", "healthCheck).", "rollbackMitigation).", "cbMembership)."} {
+				if strings.Contains(th, loop) && n > before[th] {
+					why := ""
+					if mitigationLoading && loop == "rollbackMitigation)." {
+						why = " [Close() arrived while rollback mitigation was still loading its fail-over logs: Stop() found no ticker to stop, the poll loop started afterwards]"
+					}
+					vrt.Failf("%s: background activity after Close() returned: the periodic loop %s is still running (%d further steps in two minutes)%s", desc, th[:strings.LastIndex(th, "~")], n-before[th], why)
+				}
 			}
 		}
 	}
